@@ -242,4 +242,10 @@ def run(P, R, tier):
     junk_inert(P, R, 'C01.GRD.3')
     null_tolerant_handlers(P, R)
     uar.check(P, R, 'C01.UAR.1')
+    from ..report import Remap
+    from . import c19, c09
+    # ids are looked up in the request table: a comparator that mis-orders ids loses live requests
+    c19.comparators(P, R, 'C01.ARITH.1')
+    # a verdict reaches the server in the step that produced it (one newline, one flush per message)
+    c09.sender_body(P, Remap(R, {'C09.FMT.2': 'C01.FMT.2'}))
     return EXPLANATION, ASSUMPTIONS, {'verdict_functions': sorted(V)}
